@@ -115,6 +115,21 @@ func (w *World) caseSensitiveTests(fn *ssa.Function, in func(*ssa.BasicBlock) bo
 			continue
 		}
 		for _, ins := range b.Instrs {
+			// a test kept as a function value: a bound regexp method (re.Match) or a closure
+			if mc, isMC := ins.(*ssa.MakeClosure); isMC {
+				if cf, isF := mc.Fn.(*ssa.Function); isF {
+					if strings.Contains(cf.String(), "(*regexp.Regexp).") && len(mc.Bindings) == 1 {
+						*nTests++
+						if msg := w.regexpCaseSensitive(mc.Bindings[0], w.InstrPos(mc)); msg != "" {
+							bad = append(bad, msg)
+						}
+					} else if w.InModule(cf) && !seen[cf] && depth < 3 {
+						seen[cf] = true
+						bad = append(bad, w.caseSensitiveTests(cf, func(*ssa.BasicBlock) bool { return true }, depth+1, seen, nTests)...)
+					}
+				}
+				continue
+			}
 			c, ok := ins.(*ssa.Call)
 			if !ok {
 				continue
@@ -127,24 +142,10 @@ func (w *World) caseSensitiveTests(fn *ssa.Function, in func(*ssa.BasicBlock) bo
 			switch {
 			case strings.HasPrefix(name, "(*regexp.Regexp).Match") || strings.HasPrefix(name, "(*regexp.Regexp).Find"):
 				*nTests++
-				ld, ok := c.Common().Args[0].(*ssa.UnOp)
-				g, isG := (ssa.Value)(nil), false
-				if ok {
-					g, isG = ld.X.(*ssa.Global)
+				if msg := w.regexpCaseSensitive(c.Common().Args[0], w.InstrPos(c)); msg != "" {
+					bad = append(bad, msg)
 				}
-				if !isG {
-					bad = append(bad, w.InstrPos(c)+": regular expression that is not a package-level constant pattern")
-					continue
-				}
-				pat, ok := w.globalRegexpPattern(g.(*ssa.Global))
-				if !ok {
-					bad = append(bad, w.InstrPos(c)+": pattern of "+g.Name()+" is not a single constant")
-					continue
-				}
-				re, err := syntax.Parse(pat, syntax.Perl)
-				if err != nil || !regexpFoldsLetters(re) {
-					bad = append(bad, fmt.Sprintf("%s: pattern %q matches letters case-sensitively", w.InstrPos(c), pat))
-				}
+				continue
 			case name == "bytes.Contains" || name == "bytes.HasPrefix" || name == "bytes.HasSuffix" || name == "bytes.Equal" || name == "bytes.Index":
 				*nTests++
 				if w.needleLetters(c.Common().Args[1]) && !foldedHaystack(c.Common().Args[0]) {
@@ -251,4 +252,26 @@ func constIntOfObj(w *World, pkg, name string) (int64, bool) {
 		return 0, false
 	}
 	return constIntVal(c)
+}
+
+// regexpCaseSensitive: "" if the regexp value (a load of a package-level variable compiled from one constant) folds
+// case on every letter-bearing literal, otherwise what is wrong.
+func (w *World) regexpCaseSensitive(v ssa.Value, pos string) string {
+	ld, ok := v.(*ssa.UnOp)
+	if !ok {
+		return pos + ": regular expression that is not a package-level constant pattern"
+	}
+	g, ok := ld.X.(*ssa.Global)
+	if !ok {
+		return pos + ": regular expression that is not a package-level constant pattern"
+	}
+	pat, ok := w.globalRegexpPattern(g)
+	if !ok {
+		return pos + ": pattern of " + g.Name() + " is not a single constant"
+	}
+	re, err := syntax.Parse(pat, syntax.Perl)
+	if err != nil || !regexpFoldsLetters(re) {
+		return fmt.Sprintf("%s: pattern %q matches letters case-sensitively", pos, pat)
+	}
+	return ""
 }
